@@ -16,6 +16,9 @@ import (
 	"testing"
 
 	"go.opentelemetry.io/otel/attribute"
+	"go.opentelemetry.io/otel/sdk/metric/metricdata"
+
+	"go.opentelemetry.io/collector/component/componenttest"
 
 	"go.opentelemetry.io/collector/consumer"
 	"go.opentelemetry.io/collector/consumer/xconsumer"
@@ -77,6 +80,35 @@ func vC19PipeTerm(sig int, ops []vPipeOp, vec [vC19NCounters]int64) string {
 	return fmt.Sprintf("CPipe %s %s %s", vZ(int64(sig)), vList(it), vC19Vec(vec))
 }
 
+// vC19PipeAttrs checks the attribute set of every data point of the item counter: exactly one outcome
+// attribute plus every static attribute with its value.
+func vC19PipeAttrs(tel *componenttest.Telemetry, nstatic int) string {
+	var rm metricdata.ResourceMetrics
+	if err := tel.Reader.Collect(context.Background(), &rm); err != nil {
+		return err.Error()
+	}
+	for _, sm := range rm.ScopeMetrics {
+		for _, m := range sm.Metrics {
+			d, ok := m.Data.(metricdata.Sum[int64])
+			if !ok || m.Name != vC19PipeCounter {
+				continue
+			}
+			for _, dp := range d.DataPoints {
+				if dp.Attributes.Len() != nstatic+1 {
+					return fmt.Sprintf("data point with %d attributes, expected %d static + outcome", dp.Attributes.Len(), nstatic)
+				}
+				for k := 1; k < nstatic; k++ {
+					v, has := dp.Attributes.Value(attribute.Key(fmt.Sprint("verif.static.", k)))
+					if !has || v.AsString() != fmt.Sprint("v", k) {
+						return fmt.Sprintf("static attribute %d missing or wrong on a data point", k)
+					}
+				}
+			}
+		}
+	}
+	return ""
+}
+
 func TestVerifC19Pipe(t *testing.T) {
 	out := vOpen()
 	defer out.Close()
@@ -101,10 +133,14 @@ func TestVerifC19Pipe(t *testing.T) {
 			t.Fatal(err)
 		}
 		caps := consumer.Capabilities{MutatesData: rng.Bool()}
+		// 1 to 9 static attributes (the wrapper's configuration space: the attribute sets for the two outcomes
+		// are compiled from them once)
 		opts := []Option{WithStaticDataPointAttribute(attribute.String("otel.signal", sigName[sig]))}
-		if rng.Bool() {
-			opts = append(opts, WithStaticDataPointAttribute(attribute.String("otel.component.id", "verif")))
+		nstatic := 1 + rng.Intn(9)
+		for k := 1; k < nstatic; k++ {
+			opts = append(opts, WithStaticDataPointAttribute(attribute.String(fmt.Sprint("verif.static.", k), fmt.Sprint("v", k))))
 		}
+		out.Stat(fmt.Sprintf("static_attributes_%d", nstatic), 1)
 		cur := 0
 		finish := func(after int) error {
 			ops[cur].after = after
@@ -210,6 +246,11 @@ func TestVerifC19Pipe(t *testing.T) {
 			if violated == "" && (got.vec != want || len(got.unknown) > 0 || !errOK) {
 				violated = fmt.Sprintf("tracer_mode=%d call %d signal=%s offered=%d downstream_mutation=%d left_after=%d err=%v: counters %v, expected %v (unknown %v)",
 					mode, i, sigName[sig], ops[i].n, ops[i].mut, ops[i].after, err, got.vec[vC19PipeBase:], want[vC19PipeBase:], got.unknown)
+			}
+			if violated == "" {
+				if bad := vC19PipeAttrs(tel, nstatic); bad != "" {
+					violated = fmt.Sprintf("call %d static_attributes=%d: %s", i, nstatic, bad)
+				}
 			}
 			prev = got.vec
 			out.Stat(fmt.Sprintf("op_sig%d_mut%d_err%v", sig, ops[i].mut, ops[i].err), 1)
